@@ -41,7 +41,41 @@ func encKey(k string) string {
 	return "~" + hex.EncodeToString([]byte(k))
 }
 
-func enc(v any) string {
+// enc: canonical token of a value.  A value that contains itself (an engine that stores a column of the
+// row into a map nested in that column builds one) is cut where the path re-enters a map or slice it is
+// already inside, with a marker, instead of overflowing the stack.
+func enc(v any) string { return encd(v, map[uintptr]bool{}) }
+
+var encCyclic = "x" + hex.EncodeToString([]byte("cyclic"))
+
+func encEnter(v any, d map[uintptr]bool) (uintptr, bool) {
+	rv := reflect.ValueOf(v)
+	if (rv.Kind() == reflect.Slice && rv.Len() == 0) || rv.IsNil() {
+		return 0, true
+	}
+	p := rv.Pointer()
+	if d[p] {
+		return p, false
+	}
+	d[p] = true
+	return p, true
+}
+
+func encd(v any, d map[uintptr]bool) string {
+	if len(d) > 64 {
+		return encCyclic
+	}
+	if v != nil {
+		if k := reflect.TypeOf(v).Kind(); k == reflect.Map || k == reflect.Slice {
+			p, ok := encEnter(v, d)
+			if !ok {
+				return encCyclic
+			}
+			if p != 0 {
+				defer delete(d, p)
+			}
+		}
+	}
 	switch x := v.(type) {
 	case nil:
 		return "n"
@@ -80,7 +114,7 @@ func enc(v any) string {
 			}
 			b.WriteString(encKey(k))
 			b.WriteByte(':')
-			b.WriteString(enc(x[k]))
+			b.WriteString(encd(x[k], d))
 		}
 		b.WriteByte('}')
 		return b.String()
@@ -91,7 +125,7 @@ func enc(v any) string {
 			if i > 0 {
 				b.WriteByte(',')
 			}
-			b.WriteString(enc(e))
+			b.WriteString(encd(e, d))
 		}
 		b.WriteByte(']')
 		return b.String()
@@ -105,7 +139,7 @@ func enc(v any) string {
 			if i > 0 {
 				b.WriteByte(',')
 			}
-			b.WriteString(enc(rv.Index(i).Interface()))
+			b.WriteString(encd(rv.Index(i).Interface(), d))
 		}
 		b.WriteByte(']')
 		return b.String()
@@ -114,7 +148,7 @@ func enc(v any) string {
 		var kvs []kv
 		it := rv.MapRange()
 		for it.Next() {
-			kvs = append(kvs, kv{encKey(fmt.Sprint(it.Key().Interface())), enc(it.Value().Interface())})
+			kvs = append(kvs, kv{encKey(fmt.Sprint(it.Key().Interface())), encd(it.Value().Interface(), d)})
 		}
 		sort.Slice(kvs, func(i, j int) bool { return kvs[i].k < kvs[j].k })
 		var b strings.Builder
@@ -132,7 +166,7 @@ func enc(v any) string {
 	case reflect.Uint, reflect.Uint8, reflect.Uint16, reflect.Uint32, reflect.Uint64:
 		return fmt.Sprintf("i%d", rv.Uint())
 	case reflect.Float32:
-		return enc(rv.Float())
+		return encd(rv.Float(), d)
 	}
 	return "x" + hex.EncodeToString([]byte(fmt.Sprintf("%v", v)))
 }
@@ -154,18 +188,29 @@ func encRowsSorted(rs []map[string]any, drop ...string) string {
 	return "l[" + strings.Join(xs, ",") + "]"
 }
 
-func deepCopy(v any) any {
+func deepCopy(v any) any { return deepCopyD(v, 0) }
+
+func deepCopyD(v any, d int) any {
+	if d > 24 {
+		return nil
+	}
 	switch x := v.(type) {
 	case map[string]any:
 		m := make(map[string]any, len(x))
 		for k, vv := range x {
-			m[k] = deepCopy(vv)
+			m[k] = deepCopyD(vv, d+1)
 		}
 		return m
 	case []any:
 		s := make([]any, len(x))
 		for i, vv := range x {
-			s[i] = deepCopy(vv)
+			s[i] = deepCopyD(vv, d+1)
+		}
+		return s
+	case []map[string]any:
+		s := make([]map[string]any, len(x))
+		for i, vv := range x {
+			s[i] = deepCopyD(vv, d+1).(map[string]any)
 		}
 		return s
 	}
@@ -861,6 +906,16 @@ func c20FunctionKinds() []c20Kind {
 }
 
 func c20RunU(rng *RNG, k c20Kind, mode string, o *Out, quiet bool) (bool, error) {
+	return c20RunUG(rng, k, mode, o, quiet, c20URow, nil)
+}
+
+// c20RunUG: rowfn builds the caller's rows; want (optional) tells how many result rows the sink has to
+// see before the caller's maps are compared (direct queries: no fixed sleeps then).  Besides the U and S
+// lines it writes the A lines: once everything is over, every row map the engine delivered (to the sink,
+// or as the result of EmitSync) is overwritten at its top level; none of the caller's maps may notice,
+// i.e. a delivered row is never one of the caller's own (nested) maps.
+func c20RunUG(rng *RNG, k c20Kind, mode string, o *Out, quiet bool, rowfn func(*RNG, int) map[string]any,
+	want func([]map[string]any) int) (bool, error) {
 	s, err := c20Open(k.sql, k.join)
 	if err != nil {
 		if quiet {
@@ -875,28 +930,40 @@ func c20RunU(rng *RNG, k c20Kind, mode string, o *Out, quiet bool) (bool, error)
 		snap string
 	}
 	var rows []pr
+	var raw, syncRes []map[string]any
 	n := 5
 	for i := 0; i < n; i++ {
-		r := c20URow(rng, i)
+		r := rowfn(rng, i)
 		snap := enc(deepCopy(r))
 		rows = append(rows, pr{r, snap})
+		raw = append(raw, r)
 		if mode == "sync" {
-			if _, err := c20SafeEmitSync(s, r); err != nil {
+			res, err := c20SafeEmitSync(s, r)
+			if err != nil {
 				s.Stop()
 				if quiet {
 					return false, nil
 				}
 				return false, fmt.Errorf("EmitSync %q: %v", k.sql, err)
 			}
+			if res != nil {
+				syncRes = append(syncRes, res)
+			}
 		} else {
 			s.Emit(r)
-			if i%2 == 1 {
+			if want == nil && i%2 == 1 {
 				time.Sleep(12 * time.Millisecond)
 			}
 		}
 	}
 	if mode != "sync" {
-		time.Sleep(90 * time.Millisecond)
+		if want != nil {
+			w := want(raw)
+			waitFor(func() bool { return coll.n() >= w }, 1500*time.Millisecond)
+			time.Sleep(2 * time.Millisecond)
+		} else {
+			time.Sleep(90 * time.Millisecond)
+		}
 	}
 	s.Stop()
 	w := "r"
@@ -914,7 +981,27 @@ func c20RunU(rng *RNG, k c20Kind, mode string, o *Out, quiet bool) (bool, error)
 		}
 		o.Line("C20 S %s %s %s %s", k.kind, hxs(k.sql), coll.snaps[i], enc(r))
 	}
+	// overwrite the delivered row maps (top level only: nested values may be shared by design)
+	poke := func(r map[string]any) {
+		ks := make([]string, 0, len(r))
+		for key := range r {
+			ks = append(ks, key)
+		}
+		for _, key := range ks {
+			r[key] = "__poked__"
+		}
+		r["__poke__"] = 1
+	}
+	for _, r := range coll.rows {
+		poke(r)
+	}
 	coll.mu.Unlock()
+	for _, r := range syncRes {
+		poke(r)
+	}
+	for _, r := range rows {
+		o.Line("C20 A %s %s %s %s %s", k.kind, mode, hxs(k.sql), r.snap, enc(r.m))
+	}
 	return true, nil
 }
 
@@ -1428,6 +1515,10 @@ func runC20(tier string, seed uint64, o *Out) error {
 		}
 	}
 	o.Dist["U_registered_function_calls"] = nfn
+	// (5c) unnest() over arrays of objects / scalars / mixed next to other projected columns (c20b.go)
+	if err := c20RunUnnestFamily(rng, tier, o); err != nil {
+		return err
+	}
 	// (6) paired vs solo
 	modes := []string{"random", "a_first", "b_first", "concurrent"}
 	nNear := 24
@@ -1446,5 +1537,7 @@ func runC20(tier string, seed uint64, o *Out) error {
 			}
 		}
 	}
-	return nil
+	// (7) the function registry: parameterised / plain aggregates in default- and explicit-parameter
+	//     forms, instances created after the other one ran, every solo run in a fresh process (c20b.go)
+	return c20RunRegistryFamily(rng, tier, o)
 }
